@@ -25,10 +25,10 @@ import (
 
 type route struct{ pat, method string }
 
-var universe = []route{{"/u/:a/:b", "GET"}, {"/a/:x", "GET"}, {"/b/:x/:y", "GET"}, {"/s", "*"}, {"/w/*", "GET"}, {"/a/:x", "POST"}, {"/:y", "GET"}}
-var paths = []string{"/u/1/2", "/a/7", "/b/3/4", "/s", "/zz", "/u/9", "/w/q/r", "/b/5", "/", "/zz/1/2/3"}
+var universe = []route{{"/u/:a/:b", "GET"}, {"/a/:x", "GET"}, {"/b/:x/:y", "GET"}, {"/s", "*"}, {"/w/*", "GET"}, {"/a/:x", "POST"}, {"/:y", "GET"}, {"/s", "GET"}, {"/s/", "POST"}}
+var paths = []string{"/u/1/2", "/a/7", "/b/3/4", "/s", "/zz", "/u/9", "/w/q/r", "/b/5", "/", "/zz/1/2/3", "//s", "/s/"}
 var methods = []string{"GET", "POST"}
-var behaviours = []string{"ok", "status", "panic", "escape"}
+var behaviours = []string{"ok", "status", "panic", "escape", "nest"}
 var names = []string{"a", "b", "x", "y", "/:any"}
 
 type snap struct {
@@ -96,8 +96,9 @@ func take(w *world, s *httpd.Store) snap {
 }
 
 type reqCtx struct {
-	o   *op
-	beh string
+	o     *op
+	beh   string
+	inner bool
 }
 
 func newWorld() *world {
@@ -110,6 +111,15 @@ func newWorld() *world {
 			s.W.WriteHeader(201)
 		case "panic", "escape":
 			panic("boom")
+		case "nest":
+			// an internal re-dispatch: the handler serves another (unrecorded) request through the same Mux, handing
+			// it its own ResponseWriter, then goes on
+			if !rc.inner {
+				scratch := op{}
+				inner := (&http.Request{Method: "GET", URL: &url.URL{Path: "/zz"}, Header: http.Header{}}).WithContext(
+					contextWith(&reqCtx{o: &scratch, beh: "status", inner: true}))
+				w.mux.ServeHTTP(s.W, inner)
+			}
 		}
 	}
 	w.mux.HandleNoRoute(h)
@@ -232,6 +242,19 @@ func main() {
 			}
 		}
 		play(steps, "long")
+	}
+	// the same request before and after a later registration (whatever a Mux remembers about a request it has served must
+	// not outlive a change of the route table): every ordered pair of registrations x every path x both methods
+	for u1 := 1; u1 <= len(universe); u1++ {
+		for u2 := 1; u2 <= len(universe); u2++ {
+			if u1 == u2 {
+				continue
+			}
+			for pi, p := range paths {
+				m := methods[(u1+u2+pi)%len(methods)]
+				play([]step{{reg: u1}, {p: p, m: m, beh: "ok"}, {reg: u2}, {p: p, m: m, beh: "ok"}, {p: p, m: methods[(u1+u2+pi+1)%len(methods)], beh: "ok"}}, "rereq")
+			}
+		}
 	}
 	// concurrent: batches of requests from 8 goroutines, registrations between batches
 	runtime.GOMAXPROCS(runtime.NumCPU())
